@@ -160,6 +160,7 @@ class Program:
                     body, _ = _balanced(txt_nc, m.end() - 1)
                     names, discr, vfields = [], [], {}
                     is_flags_macro = bool(re.match(r'\benum\s+\w+\s*:', m.group(0)))   # flagset::flags! syntax: values are flag bits, not discriminants
+                    is_const_table = '#[const_table]' in txt_nc[max(0, m.start() - 200):m.start()]   # first item declares the row struct, not a variant
                     for item in _split_items(body):
                         if _cfg_disabled(item): continue
                         item = re.sub(r'#\[[^\]]*\]', '', item).strip()
@@ -182,6 +183,8 @@ class Program:
                             except ValueError: d = None
                         discr.append(d)
                     name = m.group(1)
+                    if is_const_table and names:
+                        names = names[1:]; discr = [None] * len(names)
                     if name not in self.enums:
                         self.enums[name] = names
                         for vn, fl in vfields.items(): self.enum_fields[(name, vn)] = fl
